@@ -23,7 +23,7 @@ from hv.common import rng_for
 ID = "C13"
 LEVEL = "exploration"
 RULE = ("one evaluation = one Hy source compiled in k fresh processes (PYTHONHASHSEED 0,1,2,3 quick; 0..11 and one "
-        "pseudo-random 32-bit seed thorough); a case is a batch of 30-60 sources. Sources are generated to pass "
+        "pseudo-random 32-bit seed thorough); a case is a batch of 10-20 (quick) / 30-60 (thorough) sources whose children run concurrently. Sources are generated to pass "
         "through every name set of the compiler: nonlocal/global declarations of 2-6 names resolved at mixed levels "
         "(module, outer function, let, middle function), comprehensions leaking several setv/setx names in module, "
         "function and let scope, let with many bindings, defclass, match captures (or-patterns, mapping rest), "
@@ -32,7 +32,7 @@ RULE = ("one evaluation = one Hy source compiled in k fresh processes (PYTHONHAS
         "many temporaries, the gen_prog corpus and the C04/C06/C07/C08 sources when importable. Non-trivial = the "
         "compiled AST has a global/nonlocal declaration, a leak assignment, an or-pattern or a local-macro transfer with >= 2 names; "
         "distinct by source text.")
-FLOOR = {"quick": 350, "thorough": 500}
+FLOOR = {"quick": 120, "thorough": 500}
 BUDGET = {"quick": 22, "thorough": 480}
 CASE_TIMEOUT = 150
 REPLAY_TIMEOUT = 300
@@ -285,10 +285,12 @@ def cases(seed, tier, shard, nshards):
     while True:
         rng = rng_for(seed, ID, shard, i)
         i += 1
-        n = rng.choice([30, 45, 60])
+        n = rng.choice([10, 14, 20]) if tier == "quick" else rng.choice([30, 45, 60])
         srcs = []
         for j in range(n):
             r = rng.random()
+            if tier == "quick":
+                r *= 0.78          # quick tier: mostly the set-biased generators (more non-trivial sources per batch)
             if r < 0.62:
                 tag, fn, _ = rng.choices(GENS, [w for _, _, w in GENS])[0]
                 srcs.append({"g": tag, "t": fn(rng)})
@@ -340,22 +342,66 @@ def write_fixtures(fixtures):
     return d
 
 
-def child(path, hashseed, mode=None, timeout=100):
-    env = dict(os.environ)
-    env["PYTHONHASHSEED"] = str(hashseed)
-    env["PYTHONPATH"] = os.path.join(scratch_dir(), "fix") + os.pathsep + env.get("PYTHONPATH", "")
-    env.setdefault("PYTHONIOENCODING", "utf-8")
-    _STATS["children"] += 1
+MAX_PARALLEL_CHILDREN = 4
+
+
+def run_children(path, seeds, mode=None, timeout=100):
+    """start the children of one batch concurrently (at most MAX_PARALLEL_CHILDREN at a time);
+    {seed: results or None}. A child that times out, is killed or prints garbage gives None."""
+    import time
+    base = dict(os.environ)
+    base["PYTHONPATH"] = os.path.join(scratch_dir(), "fix") + os.pathsep + base.get("PYTHONPATH", "")
+    base.setdefault("PYTHONIOENCODING", "utf-8")
     cmd = [sys.executable, "-m", "hv.outgen", path] + ([mode] if mode else [])
+    out = {}
+    procs = []
     try:
-        p = subprocess.run(cmd, env=env, cwd=VERIF, capture_output=True, timeout=timeout)
-        doc = json.loads(p.stdout.decode("utf-8", "replace"))
-        if "results" not in doc or str(doc.get("hashseed")) != str(hashseed):
-            raise ValueError(str(doc)[:200])
-        return doc["results"]
-    except (subprocess.TimeoutExpired, ValueError, OSError) as e:
-        _STATS["child_failures"] += 1
-        return None
+        for k in range(0, len(seeds), MAX_PARALLEL_CHILDREN):
+            procs = []
+            for sd in seeds[k:k + MAX_PARALLEL_CHILDREN]:
+                env = dict(base, PYTHONHASHSEED=str(sd))
+                _STATS["children"] += 1
+                ofile = f"{path}.{sd}.out"
+                try:
+                    fh = open(ofile, "wb")
+                    procs.append((sd, subprocess.Popen(cmd, env=env, cwd=VERIF, stdout=fh,
+                                                       stderr=subprocess.DEVNULL), fh, ofile))
+                except OSError:
+                    out[sd] = None
+                    _STATS["child_failures"] += 1
+            deadline = time.time() + timeout
+            for sd, p, fh, ofile in procs:
+                res = None
+                try:
+                    p.wait(timeout=max(0.1, deadline - time.time()))
+                    fh.close()
+                    if p.returncode == 0:
+                        with open(ofile, "rb") as f:
+                            doc = json.loads(f.read().decode("utf-8", "replace"))
+                        if "results" in doc and str(doc.get("hashseed")) == str(sd):
+                            res = doc["results"]
+                except (subprocess.TimeoutExpired, ValueError, OSError):
+                    res = None
+                if res is None:
+                    _STATS["child_failures"] += 1
+                out[sd] = res
+    finally:
+        for sd, p, fh, ofile in procs:
+            if p.poll() is None:
+                p.kill()
+                try:
+                    p.wait(timeout=5)
+                except Exception:
+                    pass
+            try:
+                fh.close()
+            except Exception:
+                pass
+            try:
+                os.remove(ofile)
+            except OSError:
+                pass
+    return out
 
 
 def compile_batch(texts, seeds, tag, mode=None):
@@ -363,14 +409,13 @@ def compile_batch(texts, seeds, tag, mode=None):
     path = os.path.join(d, f"batch-{tag}.json")
     with open(path, "w", encoding="utf-8") as f:
         json.dump(texts, f)
-    out = {}
-    for s in seeds:
-        out[s] = child(path, s, mode)
     try:
-        os.remove(path)
-    except OSError:
-        pass
-    return out
+        return run_children(path, list(seeds), mode)
+    finally:
+        try:
+            os.remove(path)
+        except OSError:
+            pass
 
 
 def verdict_of(r):
@@ -430,6 +475,9 @@ def run_case(case):
     # sources with every multi-name `nonlocal` form split into single-name forms (attribution)
     both = compile_batch(btexts + [split_nonlocal(t) for t in btexts], seeds, "dump", "dump")
     have = all(v is not None and len(v) == 2 * len(btexts) for v in both.values())
+    if not have:
+        # the witness/attribution round lost a child (slow machine): skip, never judge half a history
+        return {"ok": None, "classes": ["child-failed"]}
     nb = len(btexts)
     attributed = [bool(have and _NONLOCAL.search(btexts[j])
                        and len({verdict_of(both[sd][nb + j]) for sd in seeds}) == 1
